@@ -14,10 +14,10 @@
      *_fair_completion  any continuation made of enough "rounds" -- each round an arbitrary list
                         of calls containing one DoOutput and one DoInput call that are allowed
                         to move at least one byte -- reaches that state. *)
-From Coq Require Import List NArith.
+From Coq Require Import List NArith ZArith.
 From Muscle Require Import Gen.Consts Gw.GwBase Gw.TransportProofs
   Gw.FrameModel Gw.FrameProofs Gw.FrameDefault Gw.ZlibModel Gw.ZlibProofs Gw.TmplModel Gw.TmplProofs Gw.WsModel Gw.WsProofs Gw.WsDefault
-  Gw.TextModel Gw.TextProofs Gw.RawModel Gw.RawProofs Gw.SlipModel Gw.SlipProofs Gw.MiniModel Gw.MiniProofs.
+  Gw.TextModel Gw.TextProofs Gw.RawModel Gw.RawProofs Gw.SlipModel Gw.SlipProofs Gw.MiniModel Gw.MiniProofs Gw.PumpProofs.
 Import ListNotations.
 Local Open Scope N_scope.
 
@@ -463,6 +463,106 @@ Theorem C03_cpp_to_mini_fair_completion : forall (evs : list (event bytes)) (rs 
   quiet d_rem st /\ s_dlv st = ev_msgs evs.
 Proof. exact cpp_to_mini_fair_completion. Qed.
 Print Assumptions C03_cpp_to_mini_fair_completion.
+
+
+(* ====================================================================== the send pump.  Event loops call DoOutput() only while
+   the gateway's HasBytesToOutput() says true.  *_has_bytes_sound: for EVERY sender state, HasBytesToOutput() = false
+   implies that no queued byte is left unsent (in particular in the state the text gateway's 1024-deep recursion cap
+   leaves behind, see C03_text_recursion_cap_state).  *_pump_completeness: at the states where such a pump stops
+   (sender says no, nothing in flight) delivered = queued. *)
+Theorem C03_binary_codec_has_bytes_sound : forall (Msg CS : Type) (flat : CS -> Msg -> CS * bytes) (st : fsend Msg CS),
+  fs_has_bytes st = false -> fs_rem Msg CS flat st = [].
+Proof. exact fs_has_bytes_rem. Qed.
+Print Assumptions C03_binary_codec_has_bytes_sound.
+
+Theorem C03_text_has_bytes_sound : forall (eol : bytes) (st : tsend), ts_has_bytes st = false -> ts_rem eol st = [].
+Proof. exact ts_has_bytes_rem. Qed.
+Print Assumptions C03_text_has_bytes_sound.
+
+Theorem C03_raw_slip_has_bytes_sound : forall (xform : list bytes -> list bytes) (st : rsend),
+  rs_has_bytes st = false -> rs_rem xform st = [].
+Proof. exact rs_has_bytes_rem. Qed.
+Print Assumptions C03_raw_slip_has_bytes_sound.
+
+Theorem C03_websocket_has_bytes_sound : forall (Msg : Type) (sflat : Msg -> bytes) (client : bool) (st : wsend Msg),
+  ws_has_bytes st = false -> ws_rem Msg sflat client st = [].
+Proof. exact ws_has_bytes_rem. Qed.
+Print Assumptions C03_websocket_has_bytes_sound.
+
+Theorem C03_mini_has_bytes_sound : forall st : msend, mg_has_bytes st = false -> ms_rem st = [].
+Proof. exact mg_has_bytes_rem. Qed.
+Print Assumptions C03_mini_has_bytes_sound.
+
+Theorem C03_binary_pump_completeness : forall max_in (evs : list (event bytes)),
+  Forall (ev_wf (d_wfb max_in)) evs ->
+  fs_has_bytes (s_snd (sys_run fs_queue d_do_output (d_do_input max_in) d_sys0 evs)) = false ->
+  s_pipe (sys_run fs_queue d_do_output (d_do_input max_in) d_sys0 evs) = [] ->
+  s_dlv (sys_run fs_queue d_do_output (d_do_input max_in) d_sys0 evs) = ev_msgs evs.
+Proof. exact binary_pump_completeness. Qed.
+Print Assumptions C03_binary_pump_completeness.
+
+Theorem C03_text_pump_completeness : forall eol, eol_ok eol -> forall evs : list (event (list bytes)),
+  Forall (ev_wf text_wfm) evs ->
+  ts_has_bytes (s_snd (sys_run ts_queue (t_do_output eol) t_do_input text_sys0 evs)) = false ->
+  s_pipe (sys_run ts_queue (t_do_output eol) t_do_input text_sys0 evs) = [] ->
+  concat (s_dlv (sys_run ts_queue (t_do_output eol) t_do_input text_sys0 evs)) = concat (ev_msgs evs).
+Proof. exact text_pump_completeness. Qed.
+Print Assumptions C03_text_pump_completeness.
+
+Theorem C03_raw_pump_completeness : forall minc maxc (evs : list (event (list bytes))),
+  Forall (ev_wf raw_wfm) evs ->
+  rs_has_bytes (s_snd (sys_run rs_queue raw_do_output (r_do_input minc maxc) raw_sys0 evs)) = false ->
+  s_pipe (sys_run rs_queue raw_do_output (r_do_input minc maxc) raw_sys0 evs) = [] ->
+  flat_chunks (s_dlv (sys_run rs_queue raw_do_output (r_do_input minc maxc) raw_sys0 evs))
+    ++ rr_pend (s_rcv (sys_run rs_queue raw_do_output (r_do_input minc maxc) raw_sys0 evs)) = flat_chunks (ev_msgs evs).
+Proof. exact raw_pump_completeness. Qed.
+Print Assumptions C03_raw_pump_completeness.
+
+Theorem C03_slip_pump_completeness : forall evs : list (event (list bytes)),
+  Forall (ev_wf raw_wfm) evs ->
+  rs_has_bytes (s_snd (sys_run rs_queue slip_do_output sl_do_input slip_sys0 evs)) = false ->
+  s_pipe (sys_run rs_queue slip_do_output sl_do_input slip_sys0 evs) = [] ->
+  concat (s_dlv (sys_run rs_queue slip_do_output sl_do_input slip_sys0 evs)) = concat (ev_msgs evs).
+Proof. exact slip_pump_completeness. Qed.
+Print Assumptions C03_slip_pump_completeness.
+
+Theorem C03_websocket_pump_completeness : forall (client : bool) (max_in : N) (keys0 : list bytes),
+  Forall (fun k => length k = 4%nat) keys0 ->
+  forall evs : list (event bytes),
+  Forall (ev_wf (wsd_wfm max_in)) evs ->
+  ws_has_bytes (s_snd (sys_run ws_queue (ws_do_output bytes wsd_sflat client)
+                      (wr_do_input bytes (frecv unit) (wsd_sfeed max_in) (negb client)) (wsd_sys0 keys0) evs)) = false ->
+  s_pipe (sys_run ws_queue (ws_do_output bytes wsd_sflat client)
+                      (wr_do_input bytes (frecv unit) (wsd_sfeed max_in) (negb client)) (wsd_sys0 keys0) evs) = [] ->
+  s_dlv (sys_run ws_queue (ws_do_output bytes wsd_sflat client)
+                      (wr_do_input bytes (frecv unit) (wsd_sfeed max_in) (negb client)) (wsd_sys0 keys0) evs) = ev_msgs evs.
+Proof. exact websocket_pump_completeness. Qed.
+Print Assumptions C03_websocket_pump_completeness.
+
+Theorem C03_mini_to_cpp_pump_completeness : forall max_in (evs : list (event bytes)),
+  Forall (ev_wf (d_wfb max_in)) evs ->
+  mg_has_bytes (s_snd (sys_run ms_queue mg_do_output (d_do_input max_in) m2c_sys0 evs)) = false ->
+  s_pipe (sys_run ms_queue mg_do_output (d_do_input max_in) m2c_sys0 evs) = [] ->
+  s_dlv (sys_run ms_queue mg_do_output (d_do_input max_in) m2c_sys0 evs) = ev_msgs evs.
+Proof. exact mini_to_cpp_pump_completeness. Qed.
+Print Assumptions C03_mini_to_cpp_pump_completeness.
+
+Theorem C03_cpp_to_mini_pump_completeness : forall evs : list (event bytes),
+  Forall (ev_wf mg_wfm) evs ->
+  fs_has_bytes (s_snd (sys_run fs_queue d_do_output mg_do_input c2m_sys0 evs)) = false ->
+  s_pipe (sys_run fs_queue d_do_output mg_do_input c2m_sys0 evs) = [] ->
+  s_dlv (sys_run fs_queue d_do_output mg_do_input c2m_sys0 evs) = ev_msgs evs.
+Proof. exact cpp_to_mini_pump_completeness. Qed.
+Print Assumptions C03_cpp_to_mini_pump_completeness.
+
+(* non-vacuity of the text case: cap+1 empty lines, one unlimited DoOutput() call: it stops after cap lines with the
+   current line fully written; HasBytesToOutput() still says true and one byte is unsent *)
+Theorem C03_text_recursion_cap_state :
+  let m := repeat ([] : bytes) (S (N.to_nat c_text_max_recurse)) in
+  let '(st, w) := t_do_output [LF] (ts_queue ts_init m) c_MUSCLE_NO_LIMIT (repeat c_MUSCLE_NO_LIMIT 2000) in
+  blen w = c_text_max_recurse /\ ts_off st = Z.of_N (blen (ts_text st)) /\ ts_has_bytes st = true /\ ts_rem [LF] st <> [].
+Proof. exact text_cap_state_has_bytes. Qed.
+Print Assumptions C03_text_recursion_cap_state.
 
 (* ====================================================================== non-vacuity: concrete runs
    that satisfy the premises above (segmented transfers reaching the quiet state) *)
